@@ -781,6 +781,10 @@ pub fn build(flavor: Flavor) -> World {
     }
     must("open_bundled_position", l, &ix_open_bundled(&attacker_bundle, 0, &pool, attacker.key, funder, LO, HI));
     attacker_pos.insert(Nft::Bundle, VPos { nft: Nft::Bundle, st: St::Funded, pos: bundled_pos_ref(&attacker_bundle, 0, &pool, LO, HI), bundle: Some((attacker_bundle.clone(), 0)) });
+    // two more bundled positions of the attacker, open and never funded, at the indexes of the victim's funded / emptied ones
+    for i in [1u16, 2] {
+        must("open_bundled_position", l, &ix_open_bundled(&attacker_bundle, i, &pool, attacker.key, funder, LO, HI));
+    }
     let attacker_locked = open(l, format!("{lab}/a/te/locked"), attacker.key, true);
 
     // ---- fund ----
